@@ -94,6 +94,14 @@ pub fn run(f: &[&str]) -> String {
                 Ok(r) => same(r),
                 Err(_) => "-",
             };
+            // the same values through an adaptor whose size hint is (0, Some(k)): the outcome must not
+            // depend on the hint
+            let iter_f = guard(std::panic::AssertUnwindSafe(|| fl.eval_iter(vs.clone().into_iter().filter(|_| true))));
+            let iter_ = match (iter_, iter_f) {
+                (Ok(a), Ok(b)) if cls(&a) == cls(&b) => Ok(a),
+                (Err(_), Err(_)) => Err(()),
+                _ => Ok(Err(exmex::ExError::new("eval_iter depends on the size hint"))).and_then(|_: exmex::ExResult<Sym>| Err(())),
+            };
             let vi = match (&vec_, &iter_) {
                 (Ok(a), Ok(b)) if cls(a) == cls(b) => cls(a).to_string(),
                 (Err(_), Err(_)) => "p".to_string(),
